@@ -1441,6 +1441,59 @@ func scenarioWitnessLeaseAfterLeaderCrash(r *vh.Rand) (string, []string) {
 	return g.c.Header(), g.ops
 }
 
+// scenario 26: a leadership transfer whose TimeoutNow is delayed. The leader gives the
+// transfer up after an election time-out, accepts proposals again and commits an entry
+// without the target; then the stale TimeoutNow (still of the current term) arrives and
+// the target campaigns with the transfer hint although its log lacks the committed entry.
+func scenarioStaleTimeoutNow(r *vh.Rand) (string, []string) {
+	g := newScenarioGen(r, 3, uint64(4+r.Intn(4)), false, false)
+	if !g.elect(1, nil) {
+		return g.c.Header(), g.ops
+	}
+	g.propose(1)
+	g.settle(nil)
+	for _, k := range g.liveIDs() {
+		g.update(k)
+		g.apply(k, 100)
+	}
+	g.settle(nil)
+	g.do("LT 1 3")
+	g.update(1)
+	notTN := func(m pb.Message) bool { return m.Type != pb.TimeoutNow }
+	g.settle(notTN)
+	// the transfer times out on the leader (heartbeats keep flowing)
+	for i := uint64(0); i < g.c.ET+2 && !g.Stopped; i++ {
+		g.do("T 1")
+		g.update(1)
+		g.settle(notTN)
+	}
+	// replica 3 is cut off; entries commit with {1, 2}
+	pair := func(m pb.Message) bool { return m.Type != pb.TimeoutNow && only(1, 2)(m) }
+	for i := 0; i <= r.Intn(2); i++ {
+		g.propose(1)
+		g.settle(pair)
+	}
+	g.update(1)
+	g.apply(1, 100)
+	g.settle(pair)
+	g.update(2)
+	g.apply(2, 100)
+	g.dropPool(func(m pb.Message) bool { return m.Type != pb.TimeoutNow })
+	// the delayed TimeoutNow reaches the target
+	g.settle(func(m pb.Message) bool { return m.Type == pb.TimeoutNow })
+	g.update(3)
+	g.settle(func(m pb.Message) bool { return m.Type == pb.RequestVote })
+	g.settle(nil)
+	for i := 0; i < 3 && !g.Stopped; i++ {
+		for _, k := range g.liveIDs() {
+			g.do(fmt.Sprintf("T %d", k))
+			g.update(k)
+		}
+		g.settle(nil)
+	}
+	return g.c.Header(), g.ops
+}
+
 var scenarios = []func(r *vh.Rand) (string, []string){
 	scenarioTransferWithUnappliedChange,
 	scenarioVoteRace, scenarioTransferRemove, scenarioDeposedLeaderRead, scenarioDelayedConfirmation,
@@ -1451,5 +1504,5 @@ var scenarios = []func(r *vh.Rand) (string, []string){
 	scenarioOnlyFullMemberRead, scenarioMatchingSnapshotBehindLog, scenarioSnapshotWithoutWitness,
 	scenarioQueuedReplicateAndTruncation, scenarioCommitAfterShrink,
 	scenarioRemovalWhileReadPending, scenarioForwardedReadToNewLeader, scenarioVoteOnlyStateChange,
-	scenarioWitnessLeaseAfterLeaderCrash,
+	scenarioWitnessLeaseAfterLeaderCrash, scenarioStaleTimeoutNow,
 }
